@@ -23,10 +23,13 @@ import (
 // "during" writers run concurrently with Flush, "post" writers start after
 // Flush returned. The schedule is NOT owned: a violation is real, a pass only
 // says that the schedules that happened were fine. No timing is asserted.
-// Kind 1: logWriter, sequential writes and monitor attachments at generated
-// positions (deterministic).  Kind 2: logWriter, concurrent writers with
-// monitors attached in the middle; a reference monitor attached from the start
-// gives the linearisation.
+// Every writer formats its lines into one reused buffer (as package log does),
+// Flush may be called a second time (after or concurrently with the first) and
+// the underlying writer may yield the processor inside every call.
+// Kind 1: logWriter, sequential writes, monitor attachments, repeated
+// registrations and deregistrations at generated positions (deterministic).
+// Kind 2: logWriter, concurrent writers with monitors attached in the middle;
+// a reference monitor attached from the start gives the linearisation.
 
 type c29Case struct {
 	Kind int `json:"kind"`
@@ -443,33 +446,77 @@ func c29LogSeq(c c29Case, x *vkit.Ctx) {
 	}
 	x.Label("logwriter-sequential")
 	lw := agent.NewLogWriter(c.Buf)
+	// model of one monitor: what it must have received so far
 	type att struct {
-		m *c29Mon
-		t int // writes before the attachment
+		m        *c29Mon
+		want     []string
+		attached bool
+		t        int  // writes before the (last) attachment
+		wrapped  bool // some attachment happened after the ring had wrapped
+		again    bool // registered again while attached / deregistered / re-attached
 	}
-	var atts []att
+	var atts []*att
 	var all []string
-	wrapped := false
+	wrapped, reReg, deReg, reAtt := false, false, false, false
+	backlog := func() []string { return all[max(0, len(all)-c.Buf):] }
+	wr := &c29Writer{}
 	for i, op := range c.Ops {
-		switch op {
+		if op < 0 {
+			x.Inconclusive("malformed case")
+			return
+		}
+		switch op % 10 {
 		case 0:
-			m := &c29Mon{}
-			lw.RegisterHandler(m)
-			atts = append(atts, att{m, len(all)})
+			a := &att{m: &c29Mon{}, attached: true, t: len(all)}
+			lw.RegisterHandler(a.m)
+			a.want = append(a.want, backlog()...)
 			if len(all) > c.Buf {
-				wrapped = true
+				wrapped, a.wrapped = true, true
 			}
+			atts = append(atts, a)
 		case 1, 2:
 			line := fmt.Sprintf("line-%04d", i)
 			all = append(all, line)
-			if op == 1 {
+			for _, a := range atts {
+				if a.attached {
+					a.want = append(a.want, line)
+				}
+			}
+			if op%10 == 1 {
 				line += "\n"
 			}
-			n, err := lw.Write([]byte(line))
+			p := wr.line(line) // one reused buffer, as package log does
+			n, err := lw.Write(p)
 			if err != nil || n != len(line) {
 				x.Violationf("logwriter-write-result", "Write(%q) = %d, %v", line, n, err)
 				return
 			}
+		case 3:
+			if len(atts) == 0 {
+				continue
+			}
+			a := atts[(op/10)%len(atts)]
+			lw.RegisterHandler(a.m)
+			a.again = true
+			if a.attached {
+				reReg = true // already attached: nothing may be replayed to it
+			} else {
+				// attached anew after a deregistration: backlog first, as for any new monitor
+				reAtt = true
+				a.attached, a.t = true, len(all)
+				a.want = append(a.want, backlog()...)
+				if len(all) > c.Buf {
+					wrapped, a.wrapped = true, true
+				}
+			}
+		case 4:
+			if len(atts) == 0 {
+				continue
+			}
+			a := atts[(op/10)%len(atts)]
+			lw.DeregisterHandler(a.m) // "removes a LogHandler and prevents more invocations"
+			a.attached, a.again = false, true
+			deReg = true
 		default:
 			x.Inconclusive("malformed case")
 			return
@@ -478,18 +525,29 @@ func c29LogSeq(c c29Case, x *vkit.Ctx) {
 	if wrapped {
 		x.Label("logwriter:ring-wrapped-before-attach")
 	}
+	if reReg {
+		x.Label("logwriter:registered-again-while-attached")
+	}
+	if deReg {
+		x.Label("logwriter:deregistered")
+	}
+	if reAtt {
+		x.Label("logwriter:attached-again-after-deregistration")
+	}
 	x.Labelf("logwriter:attachments=%d", min(len(atts), 5))
 	x.NonTrivial(wrapped)
 	for k, a := range atts {
-		want := all[max(0, a.t-c.Buf):]
 		got := a.m.snapshot()
-		if d := c29DiffSeq(got, want); d != "" {
+		if d := c29DiffSeq(got, a.want); d != "" {
 			sig := "logwriter-monitor-sequence"
-			if a.t > c.Buf {
+			switch {
+			case a.again:
+				sig = "logwriter-monitor-sequence-reregistered"
+			case a.wrapped:
 				sig = "logwriter-monitor-sequence-after-wrap"
 			}
-			x.Violationf(sig, "monitor #%d attached after %d writes (buffer %d) must receive the last %d buffered lines oldest first and then every later line once: %s",
-				k, a.t, c.Buf, min(a.t, c.Buf), d)
+			x.Violationf(sig, "monitor #%d (last attached after %d writes, buffer %d; registered again or deregistered in between: %v) must receive, per attachment, the last min(t,%d) buffered lines oldest first and then every later line once while attached: %s",
+				k, a.t, c.Buf, a.again, c.Buf, d)
 			return
 		}
 	}
@@ -517,8 +575,15 @@ func c29LogConc(c c29Case, x *vkit.Ctx) {
 		return
 	}
 	x.Label("logwriter-concurrent")
+	if c.Slow < 0 || c.Slow > 64 {
+		x.Inconclusive("malformed case")
+		return
+	}
+	if c.Slow > 0 {
+		x.Label("logwriter:slow-monitors")
+	}
 	lw := agent.NewLogWriter(c.Buf)
-	ref := &c29Mon{}
+	ref := &c29Mon{slow: c.Slow}
 	lw.RegisterHandler(ref)
 	total := c.Writers * c.Lines
 	var done atomic.Int64
@@ -529,12 +594,13 @@ func c29LogConc(c c29Case, x *vkit.Ctx) {
 		go func(w int) {
 			defer wg.Done()
 			start.wait()
+			wr := &c29Writer{}
 			for i := 0; i < c.Lines; i++ {
 				l := c29Line(w, i)
 				if (w+i)%3 != 0 {
 					l += "\n"
 				}
-				lw.Write([]byte(l))
+				lw.Write(wr.line(l))
 				done.Add(1)
 			}
 		}(w)
@@ -552,7 +618,7 @@ func c29LogConc(c c29Case, x *vkit.Ctx) {
 			for done.Load() < at {
 				runtime.Gosched()
 			}
-			m := &c29Mon{}
+			m := &c29Mon{slow: c.Slow}
 			lo := ref.count()
 			lw.RegisterHandler(m)
 			hi := ref.count()
